@@ -143,7 +143,7 @@ CLAIMS["C16"] = claim("lean-model (trace semantics + footprint table) + harness 
     "guards): every unprotected conflicting pair is one of the two known findings (in-place expiry write of ExpireAll; plain struct "
     "copies vs the atomic LRU/LFU counter), every other location (shard maps, sync.Map, key locks and lock records, label index, "
     "deleters, lastRun, expirationsSet) is disciplined, and the table is race free once the two repairs are applied. Implementation side: "
-    "all pairs (quick: a seeded two thirds) of a 13-op backend and a 10-op frontend catalogue run concurrently under the race detector; "
+    "all pairs (quick: a seeded two thirds) of a 15-op backend and a 12-op frontend catalogue run concurrently under the race detector; "
     "every report must be one the model predicts (else VIOLATION); predicted ones are listed as known findings.",
     "Partial: the table is hand-written; it is tied to the code by tools/gofacts (every access the source makes, with the lock held at it as read off the function text, "
     "must be covered by a row with that location, direction and guard - regenerated on every run) and by the detector, which sees only executions that happen; "
